@@ -154,17 +154,19 @@ def RenderArgs(args, long_form=False):
   pos = sorted([a for a in args if IsPositional(a['f'])],
                key=lambda a: int(a['f'][3:]))
   named = [a for a in args if not IsPositional(a['f'])]
-  out = []
   contiguous = [int(a['f'][3:]) for a in pos] == list(range(len(pos)))
+  plain, as_named = [], []
   for a in pos:
     if contiguous and not (long_form or a.get('form') == 'named'):
-      out.append(RenderExpr(a['e']))
+      plain.append(RenderExpr(a['e']))
     else:
-      out.append('%s: %s' % (a['f'], RenderExpr(a['e'])))
-  # positional arguments must precede named ones
-  out_pos = [x for x in out if not x.startswith('col')]
-  out_named = [x for x in out if x.startswith('col')]
-  out = out_pos + out_named
+      as_named.append('%s: %s' % (a['f'], RenderExpr(a['e'])))
+  # positional arguments must precede named ones; a prefix col0..colK may stay
+  # positional only if it is contiguous, so when one positional argument is
+  # written as colN all following ones are too.
+  if as_named and plain:
+    plain, as_named = [], ['%s: %s' % (a['f'], RenderExpr(a['e'])) for a in pos]
+  out = plain + as_named
   for a in named:
     e = a['e']
     if (a.get('form') == 'short' and e['k'] == 'var' and e['name'] == a['f']):
@@ -263,16 +265,13 @@ def RenderHead(name, rule):
   named = [a for a in args if not IsPositional(a['f'])]
   if rule.get('named_order'):
     named = sorted(named, key=lambda a: rule['named_order'].index(a['f']))
-  out = []
   long_value = bool(val) and val[0].get('form') == 'long'
   for a in pos:
     assert not a['agg'], 'positional aggregated arguments are not rendered'
-    if a.get('form') == 'named':
-      out.append('%s: %s' % (a['f'], RenderExpr(a['e'])))
-    else:
-      out.append(RenderExpr(a['e']))
-  out = ([x for x in out if not x.startswith('col')] +
-         [x for x in out if x.startswith('col')])
+  if any(a.get('form') == 'named' for a in pos):
+    out = ['%s: %s' % (a['f'], RenderExpr(a['e'])) for a in pos]
+  else:
+    out = [RenderExpr(a['e']) for a in pos]
   for a in named + (val if long_value else []):
     if a['agg']:
       out.append('%s? %s= %s' % (a['f'], AGG_SYNTAX[a['agg']],
@@ -304,8 +303,21 @@ def RenderHeadAggExpr(h):
   return RenderExpr(e)
 
 
-def RenderRule(name, rule):
-  s = RenderHead(name, rule)
+def Denotations(pred):
+  """order_by(...) / limit(...) written as denotations of the rule head."""
+  s = ''
+  if pred is None:
+    return s
+  if pred.get('order') and pred.get('order_as_denotation'):
+    s += ' order_by(%s)' % ', '.join(
+        '%s%s' % (o['f'], ' desc' if o['desc'] else '') for o in pred['order'])
+  if pred.get('limit', -1) >= 0 and pred.get('limit_as_denotation'):
+    s += ' limit(%d)' % pred['limit']
+  return s
+
+
+def RenderRule(name, rule, pred=None):
+  s = RenderHead(name, rule) + Denotations(pred)
   if rule['body']:
     s += ' :- ' + RenderBody(rule['body'])
   return s + ';'
@@ -321,6 +333,10 @@ def RenderProgram(prog, engine_line='@Engine("sqlite");'):
           for o in p['order'])))
     if p.get('limit', -1) >= 0 and not p.get('limit_as_denotation'):
       lines.append('@Limit(%s, %d);' % (p['name'], p['limit']))
-    for r in p['rules']:
-      lines.append(RenderRule(p['name'], r))
+  order = prog.get('stmt_order') or [
+      [i, j] for i, p in enumerate(prog['preds'])
+      for j in range(len(p['rules']))]
+  for i, j in order:
+    p = prog['preds'][i]
+    lines.append(RenderRule(p['name'], p['rules'][j], p))
   return '\n'.join(lines) + '\n'
